@@ -57,7 +57,7 @@ static uint64_t now_ticks = 1000;
 static uint64_t rng_state;
 static int* trace_tids = 0;
 static size_t trace_n = 0, trace_cap = 0;
-static void (*stuck_hook)(const char*) = 0;
+static int (*stuck_hook)(const char*) = 0;
 static int next_obj_id = 1;
 static int pct_prio[MAXT];
 static size_t pct_change[16];
@@ -124,7 +124,7 @@ int vs_self(void) { return cur; }
 size_t vs_steps(void) { return steps; }
 uint64_t vs_now(void) { return now_ticks; }
 void vs_advance(uint64_t t) { now_ticks += t; }
-void vs_on_stuck(void (*hook)(const char*)) { stuck_hook = hook; }
+void vs_on_stuck(int (*hook)(const char*)) { stuck_hook = hook; }
 int vs_thread_finished(int tid) { return tid >= 0 && tid < nthreads && T[tid].finished; }
 int vs_nthreads(void) { return nthreads; }
 const char* vs_thread_name(int tid) { return (tid >= 0 && tid < nthreads) ? T[tid].name : "?"; }
@@ -146,6 +146,18 @@ vs_log(const char* fmt, ...)
     vprintf(fmt, ap);
     printf("\n");
     va_end(ap);
+}
+
+int
+vs_wake_all(void)
+{
+    int n = 0;
+    for (int i = 0; i < nthreads; ++i)
+        if (T[i].used && !T[i].finished && T[i].kind == VS_WAIT && !T[i].notified) {
+            T[i].notified = 1;
+            n++;
+        }
+    return n;
 }
 
 void
@@ -192,8 +204,10 @@ stuck(const char* why)
                (T[i].kind == VS_WAIT && !T[i].notified) ? " (not notified)" : "");
     }
     vs_dump_schedule();
-    if (stuck_hook)
-        stuck_hook(why);
+    if (stuck_hook && stuck_hook(why)) {
+        fflush(stdout);
+        return; /* the hook changed something (e.g. vs_wake_all): try again */
+    }
     fflush(stdout);
     _exit(why[0] == 'D' ? 42 : 43);
 }
@@ -212,14 +226,24 @@ static int
 choose(void)
 {
     int en[MAXT], n = 0;
-    for (int i = 0; i < nthreads; ++i)
-        if (enabled(&T[i]))
-            en[n++] = i;
-    if (n == 0) {
+    for (int attempt = 0; attempt < 2; ++attempt) {
+        int real = 0; /* enabled for a reason other than a spurious wake-up */
+        n = 0;
+        for (int i = 0; i < nthreads; ++i)
+            if (enabled(&T[i])) {
+                en[n++] = i;
+                if (!(T[i].kind == VS_WAIT && !T[i].notified))
+                    real++;
+            }
+        if (real > 0)
+            break;
+        /* nobody can make progress except by waking spuriously and finding its condition unchanged */
         int unfinished = 0;
         for (int i = 0; i < nthreads; ++i)
             if (T[i].used && !T[i].finished)
                 unfinished++;
+        if (attempt == 1)
+            stuck_hook = 0;
         stuck(unfinished ? "DEADLOCK" : "ALLDONE");
     }
     if (++steps > cfg.max_steps)
@@ -251,6 +275,8 @@ choose(void)
         pick = en[rnd() % (uint64_t)n];
     }
     record(pick);
+    if (cfg.trace >= 2)
+        printf("N %d\n", n); /* number of enabled threads at this step (for exhaustive exploration) */
     if (cfg.trace) {
         struct vthread* t = &T[pick];
         printf("S %d %s %s%s\n", pick, t->kind >= 0 ? KN[t->kind] : "start", t->label,
